@@ -439,6 +439,14 @@ def _option_defs(view, local):
                 somes.append((bi, pnorm(view.T.operand(st["rv"]["ops"][0]))))
             elif var == "None":
                 nones.append(bi)
+    # an Option-valued call assigned as is (`if c { None } else { path.to_str() }`): the receiver form — Some(payload of the call)
+    # whenever the call's result is Some
+    from .view import mk_payload
+    for bi in view.body.live_blocks():
+        t = view.body.blocks[bi]["term"]
+        if t["k"] == "call" and t.get("dest") is not None and not t["dest"]["proj"] and t["dest"]["local"] == local and \
+                "option::Option" in str(t["dest"].get("ty") or view.body.locals[local].get("ty") or ""):
+            somes.append((bi, pnorm(mk_payload(pnorm(view.T.call_term(bi))))))
     return somes, nones
 
 
